@@ -381,10 +381,12 @@ def run_lines(exe, lines, env=None, timeout=3600, shards=None):
 # ---------------------------------------------------------------------------
 
 def load_known(prop):
-    p = os.path.join(VERIF, "known_findings.json")
-    if not os.path.exists(p):
-        return []
-    return [e for e in json.load(open(p))["entries"] if e["property"] == prop]
+    out = []
+    for name in ("known_findings.json", "known_findings_sweep.json"):
+        p = os.path.join(VERIF, name)
+        if os.path.exists(p):
+            out += [e for e in json.load(open(p))["entries"] if e["property"] == prop]
+    return out
 
 
 class Rng(random.Random):
